@@ -524,9 +524,9 @@ func runDisc(c DiscCase) []ev.Violation {
 	}
 	if c.Mode == "recovery" {
 		// DiscoverEndpoint runs after the listing was served: give it time to parse and register
-		wait := 300 * time.Millisecond
+		wait := 200 * time.Millisecond
 		if c.Kind == "oversized" {
-			wait = 1500 * time.Millisecond
+			wait = 1000 * time.Millisecond
 		}
 		time.Sleep(wait)
 	}
@@ -708,14 +708,20 @@ func mediumSeeds(group string) []seed {
 	return medium[group]
 }
 
-// relayBig sends every constant above 64 KiB once as a 200 answer, streamed and not.
+// relayBig sends every distinct constant above 64 KiB as a 200 answer, streamed and not. The
+// requests run concurrently (one backend, endpoint and model per request, installed together), so
+// that a request Olla never answers costs the round one budget, not one budget each.
 func relayBig() {
+	var cases []RelayCase
+	seen := map[[32]byte]bool{}
 	i := 0
 	for _, g := range []string{"stream", "response", "error"} {
 		for _, sd := range seedGroups[g] {
-			if len(sd.Data) <= 64<<10 {
+			h := sha256.Sum256(sd.Data)
+			if len(sd.Data) <= 64<<10 || seen[h] {
 				continue
 			}
+			seen[h] = true
 			for _, stream := range []bool{true, false} {
 				i++
 				if i%rec.Shards() != rec.Shard() {
@@ -725,53 +731,87 @@ func relayBig() {
 				if stream {
 					ct = "text/event-stream"
 				}
-				ev.Direct(rec, "relay", RelayCase{Engine: []string{"sherpa", "olla"}[i%2], Stream: stream, Status: 200, CT: ct, Mut: "seed-big", Body: sd.Data}, runRelay)
+				cases = append(cases, RelayCase{Engine: []string{"sherpa", "olla"}[(i/2)%2], Stream: stream, Status: 200, CT: ct, Mut: "seed-big", Body: sd.Data})
 			}
 		}
+	}
+	results := make([][]ev.Violation, len(cases))
+	stks := map[string]*stack.Stack{}
+	for _, engine := range []string{"sherpa", "olla"} {
+		s, err := getStack(engine)
+		if err != nil {
+			rec.Inconclusive("boot: " + err.Error())
+			return
+		}
+		stks[engine] = s
+	}
+	stackMu.Lock()
+	var engines sync.WaitGroup
+	for engine, s := range stks {
+		engines.Add(1)
+		go func(engine string, s *stack.Stack) {
+			defer engines.Done()
+			relayBigOn(s, engine, cases, results)
+		}(engine, s)
+	}
+	engines.Wait()
+	stackMu.Unlock()
+	for k, c := range cases {
+		res := results[k]
+		ev.Direct(rec, "relay", c, func(RelayCase) []ev.Violation { return res })
+	}
+}
+
+func relayBigOn(s *stack.Stack, engine string, cases []RelayCase, results [][]ev.Violation) {
+	var eps []stack.Endpoint
+	var recs []*backend.Rec
+	var idx []int
+	n := atomic.AddInt64(&caseCtr, 1)
+	for k, c := range cases {
+		if c.Engine != engine {
+			continue
+		}
+		R, err := backend.NewRec("R")
+		if err != nil {
+			rec.Inconclusive("backend: " + err.Error())
+			return
+		}
+		defer R.Close()
+		R.Respond = c.respond
+		recs, idx = append(recs, R), append(idx, k)
+		eps = append(eps, stack.Endpoint{Name: fmt.Sprintf("rb%d-%d", n, k), URL: R.URL(), Type: "openai-compatible", Priority: 100})
+	}
+	if len(eps) == 0 {
+		return
+	}
+	if err := s.Reload(eps); err != nil {
+		rec.Inconclusive("reload: " + err.Error())
+		return
+	}
+	s.SetAll(domain.StatusHealthy)
+	var wg sync.WaitGroup
+	for j, R := range recs {
+		model := fmt.Sprintf("relay-big-%d", idx[j])
+		_ = s.RegisterModels(R.URL(), model)
+		wg.Add(1)
+		go func(j int, R *backend.Rec, model string) {
+			defer wg.Done()
+			results[idx[j]] = relayExchange(s, R, model, cases[idx[j]])
+		}(j, R, model)
+	}
+	wg.Wait()
+	for _, R := range recs {
+		_ = s.Registry.RemoveEndpoint(context.Background(), R.URL())
 	}
 }
 
 // relayBudget is the time Olla has to answer one relayed request (the per-call budget of the property plus slack).
 const relayBudget = 6 * time.Second
 
-func runRelay(c RelayCase) []ev.Violation {
+// relayExchange sends one Anthropic request whose model routes to R and judges what comes back.
+func relayExchange(s *stack.Stack, R *backend.Rec, model string, c RelayCase) []ev.Violation {
 	var vs []ev.Violation
 	bad := func(sig, f string, a ...any) { vs = append(vs, ev.Violation{Sig: sig, Detail: fmt.Sprintf(f, a...)}) }
-	s, err := getStack(c.Engine)
-	if err != nil {
-		rec.Inconclusive("boot: " + err.Error())
-		return nil
-	}
-	stackMu.Lock()
-	defer stackMu.Unlock()
-	R, err := backend.NewRec("R")
-	if err != nil {
-		rec.Inconclusive("backend: " + err.Error())
-		return nil
-	}
-	defer R.Close()
-	R.Respond = func(w http.ResponseWriter, r *http.Request, _ *backend.Seen) {
-		if c.CT != "" {
-			w.Header().Set("Content-Type", c.CT)
-		}
-		w.Header().Set("X-Backend-Id", "R")
-		w.WriteHeader(c.Status)
-		_, _ = w.Write(c.Body)
-	}
-	n := atomic.AddInt64(&caseCtr, 1)
-	name := fmt.Sprintf("r%d", n)
-	if err := s.Reload([]stack.Endpoint{{Name: name, URL: R.URL(), Type: "openai-compatible", Priority: 100, Health: "/hostile-health"}}); err != nil {
-		rec.Inconclusive("reload: " + err.Error())
-		return nil
-	}
-	s.SetAll(domain.StatusHealthy)
-	const model = "relay-model"
-	if err := s.RegisterModels(R.URL(), model); err != nil {
-		rec.Inconclusive("register: " + err.Error())
-		return nil
-	}
-	defer func() { _ = s.Registry.RemoveEndpoint(context.Background(), R.URL()) }()
-
 	mode := "json"
 	if c.Stream {
 		mode = "stream"
@@ -821,7 +861,64 @@ func runRelay(c RelayCase) []ev.Violation {
 			rec.NT("relay|" + mode + "|" + shaHex(c.Body))
 		}
 	}
+	return vs
+}
+
+func (c RelayCase) mode() string {
+	if c.Stream {
+		return "stream"
+	}
+	return "json"
+}
+
+func (c RelayCase) desc() string {
+	return fmt.Sprintf("engine=%s stream=%v; backend answered status %d content-type %q body %s", c.Engine, c.Stream, c.Status, c.CT, show(c.Body))
+}
+
+func (c RelayCase) respond(w http.ResponseWriter, _ *http.Request, _ *backend.Seen) {
+	if c.CT != "" {
+		w.Header().Set("Content-Type", c.CT)
+	}
+	w.Header().Set("X-Backend-Id", "R")
+	w.WriteHeader(c.Status)
+	_, _ = w.Write(c.Body)
+}
+
+func runRelay(c RelayCase) []ev.Violation {
+	var vs []ev.Violation
+	bad := func(sig, f string, a ...any) { vs = append(vs, ev.Violation{Sig: sig, Detail: fmt.Sprintf(f, a...)}) }
+	s, err := getStack(c.Engine)
+	if err != nil {
+		rec.Inconclusive("boot: " + err.Error())
+		return nil
+	}
+	stackMu.Lock()
+	defer stackMu.Unlock()
+	R, err := backend.NewRec("R")
+	if err != nil {
+		rec.Inconclusive("backend: " + err.Error())
+		return nil
+	}
+	defer R.Close()
+	R.Respond = c.respond
+	n := atomic.AddInt64(&caseCtr, 1)
+	name := fmt.Sprintf("r%d", n)
+	if err := s.Reload([]stack.Endpoint{{Name: name, URL: R.URL(), Type: "openai-compatible", Priority: 100, Health: "/hostile-health"}}); err != nil {
+		rec.Inconclusive("reload: " + err.Error())
+		return nil
+	}
+	s.SetAll(domain.StatusHealthy)
+	const model = "relay-model"
+	if err := s.RegisterModels(R.URL(), model); err != nil {
+		rec.Inconclusive("register: " + err.Error())
+		return nil
+	}
+	defer func() { _ = s.Registry.RemoveEndpoint(context.Background(), R.URL()) }()
+
+	vs = append(vs, relayExchange(s, R, model, c)...)
+	mode, desc := c.mode(), c.desc
 	// Olla still serves
+	cl := stack.Client(false, relayBudget)
 	hr, herr := cl.Get(s.BaseURL + "/internal/health")
 	if herr != nil || hr.StatusCode != 200 {
 		st := 0
@@ -878,6 +975,7 @@ func runRelay(c RelayCase) []ev.Violation {
 }
 
 func TestC20Stack(t *testing.T) {
+	t.Parallel() // mostly waits on sockets; TestC20 is CPU-bound (the rapid searches still run one at a time: ev.Check serialises them)
 	defer stopStacks()
 	if ev.Replay(t, rec, "discovery", runDisc) || ev.Replay(t, rec, "relay", runRelay) {
 		return
@@ -892,6 +990,9 @@ func TestC20Stack(t *testing.T) {
 	i := 0
 	for _, typ := range []string{"ollama", "openai-compatible", "lm-studio", "vllm"} {
 		for _, mode := range []string{"discover-all", "recovery"} {
+			if mode == "recovery" && typ != "ollama" && typ != "openai-compatible" {
+				continue // the recovery path differs from discover-all only before the parser is chosen
+			}
 			for _, k := range fixedPoisons(typ) {
 				i++
 				if i%rec.Shards() != rec.Shard() {
